@@ -333,7 +333,7 @@ def compare(op, a, b, ctx):
         if isinstance(ra, list) and isinstance(rb, list) and ra and rb:
             msg = deep_close(ra[0], rb[0], rel, rel * L)
             if msg:
-                return "distance %s" % msg
+                return "distance %s%s" % (msg, " [seeded degenerate placement]" if op.get("deg") else "")
             separated = isinstance(ra[0], float) and ra[0] > 1e-6 * L  # overlapping sets: common points are not unique
             if not op.get("deg") and kind != "iter" and separated:
                 msg = deep_close(ra[1:], rb[1:], 1e-9, 1e-7 * L)
